@@ -116,7 +116,8 @@ def combine_batch(tables_path, out_path, workdir):
                 f.write("".join("%s\n" % _tok(v["tlen"]) for v in t["tab"]))
             with open(os.path.join(like.out_dir, "codelen_matches_comp%d.dat" % n), "w") as f:
                 for k, v in enumerate(t["tab"]):
-                    f.write(" ".join([_tok(v["nll"]), _tok(v["plen"]), "%.7e" % v["idx"], "%.7e" % (k + 1), "%.7e" % 0, "%.7e" % 0, "%.7e" % 0]) + "\n")
+                    nll = v["nll"] + t.get("off", 0) if v["nll"] not in (1000, -1) else v["nll"]     # off: common shift of every finite likelihood
+                    f.write(" ".join(["%.7e" % nll if nll not in (1000, -1) else _tok(nll), _tok(v["plen"]), "%.7e" % v["idx"], "%.7e" % (k + 1), "%.7e" % 0, "%.7e" % 0, "%.7e" % 0]) + "\n")
         comm.Barrier()
         err = None
         try:
